@@ -14,7 +14,7 @@ EXTENDS Naturals, FiniteSets, TLC
 
 CONSTANTS Side
 
-VClasses == {"v2025", "v2024", "older", "future", "empty", "garbage", "long", "padded"}   \* padded: a supported version with white space around it
+VClasses == {"v2025", "v2024", "older", "future", "empty", "garbage", "long", "padded", "between"}   \* padded: a supported version with white space around it
 Supported == {"v2025", "v2024"}
 Latest == "v2025"
 Select(v) == IF v \in Supported THEN v ELSE Latest
